@@ -6,7 +6,7 @@ cd /verif || exit 2
 export GOFLAGS=-mod=mod GOPROXY=off
 bin=$(mktemp /tmp/extract.XXXX); (cd extract && go build -o "$bin" .) || exit 2
 save=$(mktemp -d /tmp/evsave.XXXX); cp evidence/*.json "$save"/
-for d in seeded/benign/C*/; do
+for d in ${BENIGN_DIR:-seeded/benign}/C*/; do
   id=$(basename "$d")
   git -C /repo diff --quiet || { echo "repo dirty"; exit 2; }
   git -C /repo apply "/verif/$d/patch.diff" 2>/dev/null || { echo "$id: DOES-NOT-APPLY"; continue; }
